@@ -629,6 +629,13 @@ def to_str(it, v, node=None):
         return SStr([('opaque', 'float', (v,))])
     if isinstance(v, OpaqueVal):
         return SStr([('opaque', 'str', (v,))])
+    if isinstance(v, Builtin):
+        import builtins as _b
+        real = getattr(_b, v.name, None)
+        if real is not None and not isinstance(real, type):
+            return repr(real)               # '<built-in function hex>'
+        if isinstance(real, type):
+            return repr(real)               # "<class 'bool'>"
     raise Unsupported('str() of %s' % type(v).__name__)
 
 
